@@ -12,7 +12,7 @@ from ..engine import Space
 PROPERTY = "C18"
 LEVEL = "model_checking"
 VARIANTS = ["asan"]
-RULE = ("all histories of <=2 (quick) / <=3 (thorough) calls over 33 call kinds after create(full, 50 ms limit) on one instance, with a status "
+RULE = ("all histories of <=2 (quick) / <=3 (thorough) calls over 36 call kinds after create(full, 50 ms limit) on one instance, with a status "
         "probe after every call; two-instance interleavings of 2 calls each; creation variants (full/basic/empty); invalid handles (NULL, foreign "
         "memory, destroyed); states = (globals set, config loaded, instance age) contexts reached, transitions = API calls; non-trivial = history "
         "contains a failing or limit-hitting call before another call")
@@ -53,6 +53,10 @@ CALLS = {
     "eval-error-midway": ("s", '__EVAL(1 + "x"; GV = 5; 7) diag_log "eem"', 0, ["eem"]),
     "cfg-eval-spawn": ("cfg", "class ES { v = __EVAL([] spawn { GV = 5 }; 1); };", 0, []),
     "parse-error-eval-spawn": ("s", "x = ; __EVAL([] spawn { GV = 5 }; 1)", -3, []),
+    # an __EVAL that never comes to an end by itself: the runtime limit ends it (the evaluation is a run of its own)
+    "pp-eval-endless-loop": ("p", 'A __EVAL(for "_i" from 0 to 1 step 0 do {}) B', 0, []),
+    "pp-eval-endless-wait": ("p", "A __EVAL(waitUntil {false}) B", 0, []),
+    "eval-endless-wait": ("s", '__EVAL(waitUntil {false}) diag_log "eew"', 0, ["eew"]),
     "unknown-type": ("x", "1", -5, []),
     "assembly-bad": ("a", "this is not assembly", -3, []),
     "assembly-bad-char": ("a", "push 1 endStatement; ? $", -3, []),
@@ -64,7 +68,7 @@ CALLS = {
     "load-config-pp-bad": ("cfg", '#include "nope.hpp"', -2, []),
 }
 KINDS = list(CALLS)
-EVAL_FAILS = ("pp-eval-error-midway", "eval-error-midway")   # the failure inside __EVAL is reported (fatal stack trace); whether the call then counts as failed is not fixed
+EVAL_FAILS = ("pp-eval-error-midway", "eval-error-midway", "pp-eval-endless-loop", "pp-eval-endless-wait", "eval-endless-wait")   # the failure inside __EVAL is reported (fatal stack trace); whether the call then counts as failed is not fixed
 
 
 def gen_hist(depth):
